@@ -181,6 +181,19 @@ func planC03(p *propDef, tier string, seed uint64, n int) []*Case {
 				sc.Sched.Slow, sc.Sched.SlowDiv = strings.SplitN(pt, ".", 2)[0]+".", 64 // the stage whose workers lag behind
 			}
 		}
+		// asynchronous WARC writing with a writer that lags: the WARC-queue watchdog pauses the pipeline and resumes it later
+		if pr.sc.Cfg.AsyncWARC {
+			for j, div := range []int{8, 64} {
+				add(pr, mix(pr.seed, uint64(450+j)), fmt.Sprintf("warc-queue-watchdog-pause (writer 1/%d),stop@idle", div), nil, nil)
+				sc := cases[len(cases)-1].Scenario
+				sc.Cfg.WARCQueueSize = 1
+				sc.Sched.Slow, sc.Sched.SlowDiv = "warc.write", div
+				add(pr, mix(pr.seed, uint64(460+j)), fmt.Sprintf("warc-queue-watchdog-pause (writer 1/%d),stop-while-paused", div), []scen.CtlAction{{Name: "stop", Kind: "stop", Trigger: scen.Trigger{Point: "pause.pause.broadcast", Nth: 1}}}, nil)
+				sc = cases[len(cases)-1].Scenario
+				sc.Cfg.WARCQueueSize = 1
+				sc.Sched.Slow, sc.Sched.SlowDiv = "warc.write", div
+			}
+		}
 		// paused by the disk watchdog (low space from the 2nd tick on), stop while paused / after space returns
 		ok := scen.DiskReading{Blocks: 1 << 28, Bavail: 1 << 27, Bsize: 4096}
 		low := scen.DiskReading{Blocks: 1 << 28, Bavail: 1 << 10, Bsize: 4096}
